@@ -16,6 +16,9 @@ func Equal(a, b any) bool { //nolint: gocyclo
 		return a == b
 	}
 	ra, rb := reflect.ValueOf(a), reflect.ValueOf(b)
+	if c, ok := compareNumbers(ra, rb); ok {
+		return c == 0
+	}
 	switch joinKind(ra.Kind(), rb.Kind()) {
 	case reflect.Array, reflect.Slice:
 		if ra.Len() != rb.Len() {
@@ -64,6 +67,9 @@ func Less(a, b any) bool {
 		return false
 	}
 	ra, rb := reflect.ValueOf(a), reflect.ValueOf(b)
+	if c, ok := compareNumbers(ra, rb); ok {
+		return c < 0
+	}
 	switch joinKind(ra.Kind(), rb.Kind()) {
 	case reflect.Bool:
 		return !ra.Bool() && rb.Bool()
@@ -73,6 +79,76 @@ func Less(a, b any) bool {
 		return ra.Convert(float64Type).Float() < rb.Convert(float64Type).Float()
 	case reflect.String:
 		return ra.String() < rb.String()
+	default:
+		return false
+	}
+}
+
+// compareNumbers compares two numbers of any width and signedness by value.
+// It returns ok = false unless both operands are integers or floats.
+func compareNumbers(ra, rb reflect.Value) (c int, ok bool) {
+	ka, kb := ra.Kind(), rb.Kind()
+	isNum := func(k reflect.Kind) bool { return isIntKind(k) || isUintKind(k) || isFloatKind(k) }
+	if !isNum(ka) || !isNum(kb) {
+		return 0, false
+	}
+	if isFloatKind(ka) || isFloatKind(kb) {
+		fa, fb := toFloat(ra), toFloat(rb)
+		switch {
+		case fa < fb:
+			return -1, true
+		case fa > fb:
+			return 1, true
+		case fa == fb:
+			return 0, true
+		default: // NaN is neither less than nor equal to anything
+			return 2, true
+		}
+	}
+	// both integers: compare sign first, then magnitude
+	na, ma := intSignMagnitude(ra)
+	nb, mb := intSignMagnitude(rb)
+	switch {
+	case na && !nb:
+		return -1, true
+	case !na && nb:
+		return 1, true
+	case ma == mb:
+		return 0, true
+	case (ma < mb) != na:
+		return -1, true
+	default:
+		return 1, true
+	}
+}
+
+func toFloat(r reflect.Value) float64 {
+	switch {
+	case isIntKind(r.Kind()):
+		return float64(r.Int())
+	case isUintKind(r.Kind()):
+		return float64(r.Uint())
+	default:
+		return r.Float()
+	}
+}
+
+// intSignMagnitude returns whether an integer is negative, and its magnitude.
+func intSignMagnitude(r reflect.Value) (negative bool, magnitude uint64) {
+	if isUintKind(r.Kind()) {
+		return false, r.Uint()
+	}
+	n := r.Int()
+	if n < 0 {
+		return true, uint64(-(n + 1)) + 1
+	}
+	return false, uint64(n)
+}
+
+func isUintKind(k reflect.Kind) bool {
+	switch k {
+	case reflect.Uint, reflect.Uint8, reflect.Uint16, reflect.Uint32, reflect.Uint64, reflect.Uintptr:
+		return true
 	default:
 		return false
 	}
